@@ -61,6 +61,20 @@ CHECKS.update({
             'explicit TLA+ spec (PregexHeap) model-checked with TLC; spec-generated histories replayed into the implementation'),
 })
 
+for _p, _t in (('C15', 'Integer family: canonical numerals in range, sign rules, maximal digit runs'),
+               ('C16', 'Decimal family: integer part by the Integer language, dot, fraction length'),
+               ('C17', 'Numeral / Word / WordContains / WordStartsWith / WordEndsWith: alphabet, length, affix predicates on maximal word runs'),
+               ('C19', 'Date: the documented field table per format, every day/month value, year lengths, separators')):
+    CHECKS[_p] = ('6 ' + _p, 'TLC builds every subject text over the constructor alphabet for every parameter record and computes the promised '
+                  'language of spec/PregexMeta.tla (' + _t + '), checking its self-consistency invariants; each state is replayed with '
+                  'is_exact_match / get_matches_and_pos',
+                  'explicit TLA+ spec (PregexMeta) model-checked with TLC; spec-generated cases replayed into the implementation')
+CHECKS['C18'] = ('6 C18', 'language equality of the emitted extensible IPv4/IPv6 patterns with the reference automata (IPRef) for ALL strings by '
+                 'TLC exploration of the product with the NFA extracted from the emitted pattern; reference automata proved equal to the '
+                 'declarative RFC predicates on all short strings (MC_IPRef); exact-match and embedded contexts via PregexMeta',
+                 'explicit TLA+ specs model-checked with TLC: product automaton exploration (MC_IPProduct), DFA = predicate (MC_IPRef), '
+                 'PregexMeta enumeration replayed into the implementation')
+
 NOT_YET = {
     'C03': 'check under construction in this session (builder part exists, class algebra and meta parts pending)',
     'C06': 'check under construction', 'C07': 'check under construction', 'C11': 'check under construction',
